@@ -1,0 +1,53 @@
+//go:build verif
+
+// Contracts for the publish package, read by the verification tooling in /verif (comment-only file).
+package publish
+
+// Published state: pub(recKey(zone id, record id)) is the content identity of the value stored for that record at the
+// provider; patches(0) counts PATCH requests. getZoneData and updateRecord talk to the provider over HTTP and JSON;
+// their contracts are assumed (trusted), PublishECH is verified against them.
+//@ ghostfn recKey(zoneID int, recordID int) int
+//@ ghost pub(k any) int
+//@ ghost patches(k any) int
+//@ ghost lastPatched(k any) int
+
+// inSync: every record description held in the local map is the provider's current one.
+//@ pure inSync(data map[zoneName]idData) bool = forall(k, has(data, k) ==> pub(recKey(cid(data[k].ZoneID), cid(data[k].RecordID))) == cid(data[k].Data.Value))
+
+//@ func CloudflarePublisher.getZoneData returns (err)
+//@   trusted
+//@   requires cf != nil && data != nil
+//@   modifies mapOf(data), mapOf(cf.zoneIDs)
+//@   ensures old(inSync(data)) ==> inSync(data)
+//@   ensures data != nil
+
+//@ func CloudflarePublisher.updateRecord returns (err)
+//@   trusted
+//@   requires cf != nil
+//@   modifies pub(recKey(cid(zoneID), cid(recordID))), patches(0), lastPatched(0)
+//@   ensures patches(0) == old(patches(0)) + 1 && lastPatched(0) == recKey(cid(zoneID), cid(recordID))
+//@   ensures err == nil ==> pub(recKey(cid(zoneID), cid(recordID))) == cid(data.Value)
+//@   ensures err != nil ==> pub(recKey(cid(zoneID), cid(recordID))) == old(pub(recKey(cid(zoneID), cid(recordID))))
+
+// isEch(p): p is an "ech=..." service parameter (strings.Cut(p, "=") finds the key "ech").
+//@ pure isEch(p string) bool = cutFound(cid(p), cid("=")) && cutBefore(cid(p), cid("=")) == cid("ech")
+// kept(P, i): number of parameters among P[0..i) that are not ech parameters.
+//@ purerec kept(P []string, i int) int = ite(i <= 0, 0, kept(P, i-1) + ite(isEch(P[i-1]), 0, 1))
+
+//@ func CloudflarePublisher.PublishECH returns (results)
+//@   requires cf != nil
+//@   modifies mapOf(cf.zoneIDs), pub, patches(0), lastPatched(0)
+//@   ensures[F:one-result-per-record] len(results) == len(records)
+//@   callsite "cf.updateRecord(" requires[F:only-if-changed] !bytesEq(newValue, oldValue)
+//@   callsite "cf.updateRecord(" requires[F:requested-record] has(data, zoneName{r.Zone, r.Name}) && bytesEq(arg1, data[zoneName{r.Zone, r.Name}].ZoneID) && bytesEq(arg2, data[zoneName{r.Zone, r.Name}].RecordID)
+//@   callsite "cf.updateRecord(" requires[F:other-fields-kept] arg3.Priority == data[zoneName{r.Zone, r.Name}].Data.Priority && arg3.Target == data[zoneName{r.Zone, r.Name}].Data.Target
+//@   callsite "cf.updateRecord(" requires[F:value] cid(arg3.Value) == joinOf(newParams, cid(" ")) && len(newParams) == kept(params, len(params)) + 1 &&
+//@       cid(newParams[len(newParams)-1]) == fmtId("ech=\"%s\"", newValue) && cid(newValue) == b64std(cid(configList))
+//@   loop 1 "range records"
+//@     invariant[F:one-each] len(results) == ri1
+//@     invariant[F:in-sync] inSync(data) && data != nil && zones != nil
+//@     invariant[F:at-most-one-patch-each] patches(0) <= entry(patches(0)) + ri1
+//@   loop 2 "range params"
+//@     invariant[F:params-kept] len(newParams) == kept(params, ri2) && forall(t, 0, ri2, !isEch(params[t]) ==> newParams[kept(params, t)] == params[t], trig(params[t]))
+//@     invariant[F:kept-below] forall(t, 0, ri2, !isEch(params[t]) ==> 0 <= kept(params, t) && kept(params, t) < kept(params, ri2), trig(params[t]))
+//@     invariant[F:no-ech-kept] forall(t, 0, len(newParams), !isEch(newParams[t]), trig(newParams[t]))
